@@ -6,6 +6,7 @@ From Coq Require Import String Ascii ZArith List Bool.
 From FcpV Require Import Layout.Packed Front.Lexer Front.Parser.
 Import ListNotations.
 Open Scope string_scope.
+Open Scope list_scope.
 
 Fixpoint print_val (v : pval) : list token :=
   match v with
@@ -20,7 +21,7 @@ Fixpoint print_val (v : pval) : list token :=
                   end) l ++ [P "]"]
   end.
 
-Definition uname (c : string) (n : nat) : string := c ++ dec_str n.
+Definition uname (c : string) (n : nat) : string := (c ++ dec_str n)%string.
 
 Fixpoint print_ty (t : pty) : list token :=
   match t with
